@@ -129,6 +129,18 @@ def engine_for(convert):
     return yq.engine(opts, allow_delegates=True)
 
 
+def _variants(rec, texts, keep):
+    """The full argument list and the list with every trailing defaulted parameter (not in `keep`) omitted."""
+    out = [list(texts)]
+    n = len(rec.params)
+    k = n
+    while k > 0 and rec.params[k - 1].has_default and (k - 1) not in keep:
+        k -= 1
+    if k < n and len(texts) == n:
+        out.append(list(texts[:k]))
+    return out
+
+
 def scan_cases(rec, tier):
     """Yield (position index, form, text, variables-maker, host label, host maker)."""
     per = 1 if tier == 'quick' else 2
@@ -151,9 +163,9 @@ def scan_cases(rec, tier):
             texts, _ = corpus.bind(vals + list(args.var))
             texts = list(texts)
             texts[pi] = '$'
-            kw = [(k, 'null') for k in ()]
-            for form in forms:
-                text = corpus.call_text(rec, form, texts, kw)
+            kw = []
+            for form, vt in ((f, v) for f in forms for v in _variants(rec, texts, (pi,))):
+                text = corpus.call_text(rec, form, vt, kw)
                 if text is None:
                     continue
                 for label, mk in hv:
@@ -165,8 +177,36 @@ def scan_cases(rec, tier):
                     def variables(vals=vals, args=args):
                         return corpus.bind(vals + list(args.var))[1]
                     yield pi, form, text, variables, label, mk
-                if tier == 'quick':
-                    break
+        # two collection-typed positions fed from ONE host document {'a': X, 'b': Y}: X and Y have equal
+        # content (colliding keys / elements), so a function that merges or combines them in place is observable
+        for pi, pj in itertools.combinations(range(len(rec.params)), 2):
+            p, q = rec.params[pi], rec.params[pj]
+            if p.is_lazy or p.is_constant or q.is_lazy or q.is_constant:
+                continue
+            both = [lab for lab, _ in host_values(p.kind) if lab in dict(host_values(q.kind))]
+            if not both:
+                continue
+            vals = list(args.pos)
+            texts = list(corpus.bind(vals + list(args.var))[0])
+            texts[pi] = '$.a'
+            texts[pj] = '$.b'
+            for form, vt in ((f, v) for f in forms for v in _variants(rec, texts, (pi, pj))):
+                text = corpus.call_text(rec, form, vt, [])
+                if text is None:
+                    continue
+                for label in both:
+                    mk1 = dict(host_values(p.kind))[label]
+                    key = (pi, pj, form, text, label)
+                    if key in seen:
+                        continue
+                    seen.add(key)
+
+                    def variables(vals=vals, args=args):
+                        return corpus.bind(vals + list(args.var))[1]
+
+                    def mk(mk1=mk1):
+                        return {'a': mk1(), 'b': mk1()}
+                    yield pi, form, text, variables, 'pair:' + label, mk
 
 
 def judge_one(res, rec, pi, form, text, variables, label, mk, convert):
@@ -262,7 +302,16 @@ POOL = [
 DOCS = [[1, 2, 3], [3, 3, 1], [5, 4]]
 
 
+def _stmt_state(st):
+    """Everything a parsed statement carries except the engine reference."""
+    return canon.digest(canon.snapshot({k: v for k, v in vars(st).items() if k != 'engine'}))
+
+
 def job_histories(reuse_child, max_depth):
+    """Explicit-state search.  State = (content variant of each persistent host document, which document the
+    reused child's `$` holds) + everything that must NOT change (context chain, statements).  Events:
+    evaluate(statement i, document d) on the SAME host document objects, and mutate(d): the host changes
+    document d in place between evaluations (append / remove an element)."""
     res = Result()
     eng = yq.fresh_engine()
     parent = yaql.create_context()
@@ -270,51 +319,91 @@ def job_histories(reuse_child, max_depth):
     sts = [eng(t) for t in POOL]
     child = parent.create_child_context()
     child['y'] = 20
+    docs = [copy.deepcopy(d) for d in DOCS]           # persistent, mutable, owned by the "host"
+    variants = [[copy.deepcopy(d), copy.deepcopy(d) + [9]] for d in DOCS]
 
-    def state():
+    def invariant():
         return (chain_state(child if reuse_child else parent, skip_dollar_in=child if reuse_child else None),
-                tuple(canon.digest(canon.snapshot(s.expression)) for s in sts))
-    first = {}
-    init = state()
-    seen = {(init, None)}
-    frontier = [()]
+                tuple(_stmt_state(s) for s in sts))
+    init = invariant()
+    reference = {}
+
+    def ref(si, content):
+        """What a freshly parsed statement on a fresh engine returns for an equal copy of the data."""
+        k = (si, repr(content))
+        if k not in reference:
+            e2 = yq.fresh_engine() if len(reference) % 12 == 0 else eng
+            c2 = parent.create_child_context()
+            c2['y'] = 20
+            try:
+                reference[k] = ('v', repr(e2(POOL[si]).evaluate(data=copy.deepcopy(content), context=c2)))
+            except Exception as e:
+                reference[k] = ('e', type(e).__name__)
+        return reference[k]
+
+    def goto(state):
+        vs, last = state
+        for d, v in zip(docs, vs):
+            d[:] = copy.deepcopy(variants[docs.index(d)][v])
+        if reuse_child and last is not None:
+            child['$'] = yutils.convert_input_data(docs[last])
+
+    start = (tuple(0 for _ in docs), None)
+    seen = {start: ()}
+    frontier = [start]
     depth = 0
     transitions = 0
     while frontier and depth < max_depth:
         nxt = []
-        for hist in frontier:
-            for si, di in itertools.product(range(len(POOL)), range(len(DOCS))):
-                # rebuild the state of `hist` by replaying it (cheap) - the only carried state is `$` of the reused child
-                if reuse_child:
-                    for (a, b) in hist[-1:]:
-                        child['$'] = yutils.convert_input_data(DOCS[b])
-                ctx = child if reuse_child else parent.create_child_context()
-                CURRENT_CASE[0] = {'kind': 'history', 'history': [list(h) for h in hist] + [[si, di]], 'reuse': reuse_child}
-                try:
-                    r = ('v', repr(sts[si].evaluate(data=copy.deepcopy(DOCS[di]), context=ctx)))
-                except Exception as e:
-                    r = ('e', type(e).__name__)
+        for state in frontier:
+            hist = seen[state]
+            events = [('eval', si, di) for si in range(len(POOL)) for di in range(len(DOCS))] + \
+                     [('mutate', di) for di in range(len(DOCS))]
+            for ev in events:
+                goto(state)
+                case = {'kind': 'history', 'history': [list(h) for h in hist] + [list(ev)], 'reuse': reuse_child}
+                CURRENT_CASE[0] = case
                 transitions += 1
-                res.evaluations += 1
                 res.transitions += 1
-                if hist:
-                    res.nontrivial += 1
-                f = first.setdefault((si, di), r)
-                case = {'kind': 'history', 'history': [list(h) for h in hist] + [[si, di]], 'reuse': reuse_child,
-                        'texts': [POOL[si]]}
-                if r != f:
-                    res.fail('result depends on evaluation history stmt=%d' % si, case, 'now %r, first time %r' % (r, f))
-                s = state()
-                if s != init:
-                    res.fail('shared context or statement changed by evaluation stmt=%d' % si, case,
-                             'state differs from the initial state (ignoring `$` of the evaluation context)')
-                    continue
-                key = (s, di if reuse_child else None)
-                res.outcomes['hist ' + ('value' if r[0] == 'v' else r[1])] += 1
-                if key not in seen:
-                    seen.add(key)
-                    res.case(('hist', reuse_child, hist + ((si, di),)))
-                    nxt.append(hist + ((si, di),))
+                if ev[0] == 'mutate':
+                    di = ev[1]
+                    vs = list(state[0])
+                    vs[di] ^= 1
+                    docs[di][:] = copy.deepcopy(variants[di][vs[di]])
+                    new = (tuple(vs), state[1])
+                else:
+                    _, si, di = ev
+                    before = repr(docs[di])
+                    ctx = child if reuse_child else parent.create_child_context()
+                    if not reuse_child:
+                        ctx['y'] = 20
+                    try:
+                        r = ('v', repr(sts[si].evaluate(data=docs[di], context=ctx)))
+                    except Exception as e:
+                        r = ('e', type(e).__name__)
+                    res.evaluations += 1
+                    if hist:
+                        res.nontrivial += 1
+                    case['texts'] = [POOL[si]]
+                    exp = ref(si, variants[di][state[0][di]])
+                    if r != exp:
+                        res.fail('result depends on evaluation history stmt=%d' % si, case,
+                                 'now %r, a fresh statement on equal data gives %r' % (r, exp), size=len(hist))
+                    if repr(docs[di]) != before:
+                        res.fail('host document mutated by evaluation stmt=%d' % si, case,
+                                 'before %s after %r' % (before, docs[di]), size=len(hist))
+                    if invariant() != init:
+                        res.fail('shared context or statement changed by evaluation stmt=%d' % si, case,
+                                 'context chain / statement snapshot differs from the initial one (ignoring `$` of the evaluation context)',
+                                 size=len(hist))
+                        # restore what can be restored so that the search can go on: rebuild the world
+                        return _rebuild_and_stop(res, seen, transitions, reuse_child)
+                    res.outcomes['hist ' + ('value' if r[0] == 'v' else r[1])] += 1
+                    new = (state[0], di if reuse_child else None)
+                if new not in seen:
+                    seen[new] = hist + (ev,)
+                    res.case(('hist', reuse_child, new))
+                    nxt.append(new)
         frontier = nxt
         depth += 1
     res.states += 1
@@ -322,7 +411,16 @@ def job_histories(reuse_child, max_depth):
     res.extra['e2_transitions'] = transitions
     if frontier:
         res.caps.append('E2 depth cap %d with %d open states' % (max_depth, len(frontier)))
-    res.sample({'pool': POOL[:3], 'docs': DOCS, 'reuse_child': reuse_child, 'states': len(seen)})
+    res.sample({'pool': POOL[:3], 'docs': DOCS, 'reuse_child': reuse_child, 'states': len(seen),
+                'longest_history': [list(e) for e in max(seen.values(), key=len)]})
+    return res
+
+
+def _rebuild_and_stop(res, seen, transitions, reuse_child):
+    res.caps.append('E2 search stopped at the first state change (the invariant is broken; further states are meaningless)')
+    res.states += 1
+    res.extra['e2_states_%s' % ('reused' if reuse_child else 'fresh')] = len(seen)
+    res.extra['e2_transitions'] = transitions
     return res
 
 
@@ -332,8 +430,8 @@ def jobs(tier, seed):
     out = []
     for i, part in enumerate(chunks(idents, 40)):
         out.append(('scan-%02d' % i, 'job_scan', (tier, part)))
-    out.append(('hist-reused', 'job_histories', (True, 4)))
-    out.append(('hist-fresh', 'job_histories', (False, 3)))
+    out.append(('hist-reused', 'job_histories', (True, 12)))
+    out.append(('hist-fresh', 'job_histories', (False, 12)))
     return out
 
 
